@@ -309,6 +309,9 @@ func attrEquivalent(el, k, a, b string) bool {
 		if x == y {
 			return true
 		}
+		if k == "type" && (el == "ol" || el == "li" || el == "ul") {
+			return false // list marker kinds: "A" and "a", "I" and "i" are different values
+		}
 		if k == "type" || k == "enctype" || k == "formenctype" || k == "accept" {
 			return strings.EqualFold(strings.ReplaceAll(x, " ", ""), strings.ReplaceAll(y, " ", "")) // media types: case-insensitive, no inner whitespace
 		}
